@@ -47,6 +47,18 @@ def _assert_src():
 _PREC = None
 
 
+def _private_hypothesis_home():
+    """Hypothesis keeps a cache of the constants it finds in local source files under its home directory and biases
+    generation with them. The shard processes share the working directory, and the cache files are written non-atomically,
+    so a shard could read a half-written file and generate other cases than the seed prescribes (observed: same seed,
+    different cases under load). Every shard process therefore gets a home directory of its own."""
+    from hypothesis.configuration import set_hypothesis_home_dir
+
+    d = os.path.join(os.environ.get("VF_WORK", "."), f"hyp-{os.getpid()}")
+    os.makedirs(d, exist_ok=True)
+    set_hypothesis_home_dir(d)
+
+
 def _cov_start():
     """Optional line coverage of the code under test (VF_COV=<abs dir>): sys.monitoring LINE events, each location
     disabled after its first hit, so the cost is negligible. Used by tools/covreport.py to find behaviour behind a
@@ -96,6 +108,7 @@ def _worker(arg):
         # helper thread whose context is the default one, so restore what the code under test configured.
         if _PREC is not None:
             decimal.getcontext().prec = _PREC
+        _private_hypothesis_home()
         mod = importlib.import_module(modname)
         t0 = time.time()
         cov = _cov_start()
@@ -103,6 +116,10 @@ def _worker(arg):
         _cov_stop(cov, spec)
         res["wall"] = time.time() - t0
         res["spec"] = {k: v for k, v in spec.items() if k in ("sub", "idx", "seed", "n")}
+        if os.environ.get("VF_DUMP"):  # debugging aid: per-shard results, to compare two runs of the same seed
+            os.makedirs(os.environ["VF_DUMP"], exist_ok=True)
+            with open(os.path.join(os.environ["VF_DUMP"], f"{spec.get('sub')}-{spec.get('idx')}.json"), "w") as f:
+                json.dump({"pid": os.getpid(), "evals": res["evals"], "nontrivial": res["nontrivial"], "labels": res["labels"]}, f)
         return res
     except BaseException:  # noqa
         return {"error": traceback.format_exc(), "spec": spec}
@@ -171,7 +188,9 @@ def _run(mod, modname, prop, args, seed):
     if jobs == 1:
         results = [_worker((modname, s)) for s in specs]
     else:
-        with ctx.Pool(jobs) as pool:
+        # one fresh process per shard: a shard is a pure function of (code, seed, shard index), whatever the number of
+        # cores and however the shards are scheduled (a reused worker would start its next shard with other modules loaded)
+        with ctx.Pool(jobs, maxtasksperchild=1) as pool:
             results = pool.map(_worker, [(modname, s) for s in specs], chunksize=1)
 
     errors = [r for r in results if "error" in r]
